@@ -31,6 +31,10 @@
                     revert of a block that wrote zero to a never-written (or currently zero) slot
                     fails ("error getting reverse state diff: check head state") and the head stays;
      FixH4 = TRUE   repaired: fall back to the head value, as deprecatedstate.stateHistory does.
+     AtomicLegacyReads = FALSE  current code: deprecatedstate.stateHistory reads the change log and then,
+                    in a second read of the LIVE database, the head value; a Store committing in
+                    between makes a read "at block m" answer with the new block's value (SplitReadOK);
+     AtomicLegacyReads = TRUE   repaired: both reads on one snapshot.
    Alphabet switch:
      SysZeroWrites  allow zero writes into the system contracts 0x1/0x2.  FALSE everywhere a
                     verdict depends on it: the system contracts hold block hashes / counters, never
@@ -51,7 +55,11 @@ CONSTANTS Users,          \* user contract ids (strings)
           MaxOps,         \* bound on the number of entries of one state diff (exhaustive configs)
           MaxTxs,         \* bound on the number of transactions of one block
           Vers,           \* protocol versions a block may have: 0 = before 0.14.1, 1 = 0.14.1 (CASM V2)
-          FixH4, SysZeroWrites
+          FixH4, SysZeroWrites,
+          SplitReads,        \* explore the legacy history read as the TWO database reads it is (log seek,
+                             \* then head fallback), interleaved with the writer; FALSE: reads are atomic
+          AtomicLegacyReads  \* FALSE = the code: the legacy reader works on the live database, a Store may
+                             \* commit between its two reads; TRUE = repaired (reads on one snapshot)
 
 AllC == Users \cup Sys
 Classes == Cairo0 \cup Sierra
@@ -66,10 +74,12 @@ VARIABLES chain,    \* sequence of blocks [ops, ver, txs]; block number n is cha
           roots,    \* roots[n+1] = [l, n]: abstract state commitment each backend stored for block n
           ldb, ndb, cdb,
           failed,   \* "no", or why RevertHead returned an error (absorbing: the node is stuck)
+          rd,       \* a legacy storage read in flight between its two database reads (SplitReads)
+          rdone,    \* the last completed split read and its answer
           act, res  \* output only: the call and its result
 
-shvars == <<chain, truth, roots, ldb, ndb, cdb, failed, act, res>>
-shview == <<chain, ldb, ndb, cdb, failed>>
+shvars == <<chain, truth, roots, ldb, ndb, cdb, failed, rd, rdone, act, res>>
+shview == <<chain, ldb, ndb, cdb, failed, rd, rdone>>
 
 NBlocks == Len(chain)
 Last(s) == s[Len(s)]
@@ -356,10 +366,14 @@ RevN(N, n, d, oldRoot) ==
      ELSE [err |-> "no", db |-> N2]
 
 --------------------------------------------------------------------------
+NoRd == [on |-> FALSE, a |-> NoA, s |-> NoA, m |-> -1]
+NoRdone == [on |-> FALSE, a |-> NoA, s |-> NoA, m |-> -1, val |-> 0]
+
 Init ==
   /\ chain = <<>> /\ truth = <<>> /\ roots = <<>>
   /\ ldb = InitL /\ ndb = InitN /\ cdb = InitC
   /\ failed = "no"
+  /\ rd = NoRd /\ rdone = NoRdone
   /\ act = [name |-> "Init"] /\ res = "ok"
 
 (* the transactions a block may carry: distinct ids, none of them already on the current chain
@@ -373,6 +387,8 @@ TxSeqOK(txs) ==
 ApplyBlock(d, ver, txs) ==
   LET n == NBlocks IN
   /\ failed = "no"
+  /\ rd.on => ~AtomicLegacyReads        \* a repaired reader's two reads see one snapshot
+  /\ UNCHANGED rd /\ rdone' = NoRdone
   /\ NBlocks < MaxBlocks
   /\ ver \in Vers /\ ver >= HeadVer
   /\ Valid(CurT, ver, d)
@@ -398,6 +414,8 @@ RevertHead ==
   IN
   /\ failed = "no"
   /\ NBlocks > 0
+  /\ rd.on => (~AtomicLegacyReads /\ rd.m < n)   \* the block being read stays retained
+  /\ UNCHANGED rd /\ rdone' = NoRdone
   /\ act' = [name |-> "Revert", h4 |-> H4Shape(ldb, n, d)]
   /\ IF err # <<>>
      THEN /\ failed' = err[2]
@@ -419,6 +437,32 @@ Restart(graceful) ==
   /\ failed = "no"
   /\ act' = [name |-> "Restart", graceful |-> graceful]
   /\ res' = "ok"
+  /\ ~rd.on
+  /\ UNCHANGED <<chain, truth, roots, ldb, ndb, cdb, failed, rd, rdone>>
+
+(* deprecatedstate.stateHistory.ContractStorage as the two database reads it performs on the live
+   database: (1) valueAt - the first log above m; when there is none (2) the head value.  A Store
+   that commits between (1) and (2) makes the reader answer with the value of the NEW block. *)
+LReadBegin(a, s, m) ==
+  /\ SplitReads /\ failed = "no" /\ ~rd.on
+  /\ m \in 0..(NBlocks - 1)
+  /\ LET r == FirstAbove(LLogS(ldb, a, s), m) IN
+     IF r # {}
+     THEN /\ rd' = NoRd
+          /\ rdone' = [on |-> TRUE, a |-> a, s |-> s, m |-> m,
+                       val |-> IF Pick(r) # 0 THEN Pick(r) ELSE IF LDeployedAt(ldb, a, m) THEN 0 ELSE NF]
+     ELSE /\ rd' = [on |-> TRUE, a |-> a, s |-> s, m |-> m]
+          /\ rdone' = NoRdone
+  /\ act' = [name |-> "ReadBegin"] /\ res' = "ok"
+  /\ UNCHANGED <<chain, truth, roots, ldb, ndb, cdb, failed>>
+
+LReadEnd ==
+  /\ rd.on
+  /\ LET v == ldb.stor[rd.a][rd.s] IN
+     rdone' = [on |-> TRUE, a |-> rd.a, s |-> rd.s, m |-> rd.m,
+               val |-> IF v # 0 THEN v ELSE IF LDeployedAt(ldb, rd.a, rd.m) THEN 0 ELSE NF]
+  /\ rd' = NoRd
+  /\ act' = [name |-> "ReadEnd"] /\ res' = "ok"
   /\ UNCHANGED <<chain, truth, roots, ldb, ndb, cdb, failed>>
 
 (* exhaustive alphabet: every diff with at most MaxOps entries *)
@@ -428,6 +472,8 @@ Next ==
   \/ \E d \in BoundedDiffs, ver \in Vers : ApplyBlock(d, ver, <<>>)
   \/ RevertHead
   \/ Restart(TRUE)
+  \/ \E a \in AllC, sl \in Slots, m \in 0..(MaxBlocks - 1) : LReadBegin(a, sl, m)
+  \/ LReadEnd
 Spec == Init /\ [][Next]_shvars
 
 --------------------------------------------------------------------------
@@ -485,6 +531,10 @@ Replay(k) ==
            b == chain[k] IN
        [l |-> UpdL(p.l, k - 1, b.ver, b.ops), n |-> UpdN(p.n, k - 1, b.ver, b.ops), c |-> UpdC(p.c, k - 1, b.ver, b.ops)]
 Canon == failed = "no" => [l |-> ldb, n |-> ndb, c |-> cdb] = Replay(NBlocks)
+
+(* C03 under concurrency: a historical read that runs while blocks are stored / reverted above its
+   block still answers for its block (holds with AtomicLegacyReads = TRUE; the code is FALSE) *)
+SplitReadOK == rdone.on => rdone.val = TStor(rdone.a, rdone.s, rdone.m)
 
 (* C03 / C04: a restart changes nothing a reader can see, wherever it occurs *)
 RestartIsNoOp == [][act'.name = "Restart" => UNCHANGED <<chain, truth, roots, ldb, ndb, cdb, failed>>]_shvars
